@@ -392,16 +392,16 @@ func (c *Cluster) pushPingMetrics(ctx context.Context) {
 // Alerts returns the last alerts recorded by this cluster peer with the most
 // recent first.
 func (c *Cluster) Alerts() []api.Alert {
-	alerts := make([]api.Alert, len(c.alerts))
-
 	c.alertsMux.Lock()
-	{
-		total := len(alerts)
-		for i, a := range c.alerts {
-			alerts[total-1-i] = a
-		}
+	defer c.alertsMux.Unlock()
+
+	// the length must be read with the lock held: the alerts handler
+	// may be appending.
+	alerts := make([]api.Alert, len(c.alerts))
+	total := len(alerts)
+	for i, a := range c.alerts {
+		alerts[total-1-i] = a
 	}
-	c.alertsMux.Unlock()
 
 	return alerts
 }
